@@ -187,7 +187,9 @@ def _resolve_target_set(source: NixSourceCode) -> AttributeSet:
         raise ValueError("Source must contain exactly one top-level expression")
     try:
         return _resolve_target_set_from_expr(source.expressions[0])
-    except ValueError as exc:
+    except (ValueError, ResolutionError) as exc:
+        # An unresolvable identifier on the way to the target (`x: x`) is an
+        # unsupported shape too: report it like the others.
         raise ValueError(
             "Top-level expression must be an attribute set or function definition"
         ) from exc
